@@ -155,9 +155,20 @@ namespace options
     {
         std::vector<options::user_input> args;
 
+        bool after_double_dash = false;
+
         for (int i = 1; i < argc; i++)
         {
+            if (after_double_dash)
+            {
+                // not an option anymore, so it doesn't have to look like one
+                args.push_back(options::user_input::positional(argv[i]));
+                continue;
+            }
+
             args.emplace_back(argv[i]);
+
+            after_double_dash = args.back().is_double_dash();
         }
 
         return parse(args);
